@@ -206,6 +206,13 @@ where
         settings: &DefaultSettings<T>,
         iter: u32,
     ) -> bool {
+        #[cfg(feature = "verif-hooks")]
+        {
+            // inputs of the termination logic that are not part of the pass snapshot
+            crate::verif_hooks::observer::scalar("dot_bz", residuals.dot_bz);
+            crate::verif_hooks::observer::scalar("dot_qx", residuals.dot_qx);
+            crate::verif_hooks::observer::scalar("solve_time", self.solve_time);
+        }
         //  optimality or infeasibility
         // ---------------------
         self.check_convergence_full(residuals, settings);
@@ -407,5 +414,72 @@ where
     ) -> bool {
         (residuals.dot_qx < -tol_infeas_abs)
             && (self.res_dual_inf < -tol_infeas_rel * residuals.dot_qx)
+    }
+}
+
+// verification hooks (feature `verif-hooks`): add-only call-through wrappers around the
+// termination logic, so that it can be driven with arbitrary scalar inputs
+#[cfg(feature = "verif-hooks")]
+pub mod verif_hooks_info {
+    use super::*;
+    pub use crate::solver::implementations::default::info_print::verif_hooks_info_print as print;
+
+    /// the six `prev_*` scalars in declaration order
+    /// (cost_primal, cost_dual, res_primal, res_dual, gap_abs, gap_rel)
+    pub fn set_prev(info: &mut DefaultInfo<f64>, p: [f64; 6]) {
+        info.prev_cost_primal = p[0];
+        info.prev_cost_dual = p[1];
+        info.prev_res_primal = p[2];
+        info.prev_res_dual = p[3];
+        info.prev_gap_abs = p[4];
+        info.prev_gap_rel = p[5];
+    }
+    pub fn get_prev(info: &DefaultInfo<f64>) -> [f64; 6] {
+        [
+            info.prev_cost_primal,
+            info.prev_cost_dual,
+            info.prev_res_primal,
+            info.prev_res_dual,
+            info.prev_gap_abs,
+            info.prev_gap_rel,
+        ]
+    }
+    fn residuals_with(dot_bz: f64, dot_qx: f64) -> DefaultResiduals<f64> {
+        let mut r = DefaultResiduals::<f64>::new(0, 0);
+        r.dot_bz = dot_bz;
+        r.dot_qx = dot_qx;
+        r
+    }
+    /// `Info::check_termination` on an `info` prepared by the caller
+    pub fn check_termination(
+        info: &mut DefaultInfo<f64>,
+        dot_bz: f64,
+        dot_qx: f64,
+        settings: &DefaultSettings<f64>,
+        iter: u32,
+    ) -> bool {
+        let r = residuals_with(dot_bz, dot_qx);
+        Info::check_termination(info, &r, settings, iter)
+    }
+    /// `Info::post_process` on an `info` prepared by the caller
+    pub fn post_process(
+        info: &mut DefaultInfo<f64>,
+        dot_bz: f64,
+        dot_qx: f64,
+        settings: &DefaultSettings<f64>,
+    ) {
+        let r = residuals_with(dot_bz, dot_qx);
+        Info::post_process(info, &r, settings)
+    }
+    /// `Info::save_prev_iterate` / `reset_to_prev_iterate` on empty variables
+    pub fn save_prev_scalars(info: &mut DefaultInfo<f64>) {
+        let v = DefaultVariables::<f64>::new(0, 0);
+        let mut p = DefaultVariables::<f64>::new(0, 0);
+        Info::save_prev_iterate(info, &v, &mut p);
+    }
+    pub fn reset_to_prev_scalars(info: &mut DefaultInfo<f64>) {
+        let mut v = DefaultVariables::<f64>::new(0, 0);
+        let p = DefaultVariables::<f64>::new(0, 0);
+        Info::reset_to_prev_iterate(info, &mut v, &p);
     }
 }
